@@ -91,6 +91,28 @@ def build(case):
     return traj, want, crossing
 
 
+def align_bonds(v, want, case):
+    """The statement fixes the set of bonds of every centre, not their order inside the centre's block: find one permutation
+    per centre (constant over all frames, matched on the whole time series) and return the oracle re-ordered accordingly."""
+    tol = 1e-9 * max(1.0, np.abs(want).max())
+    if v.shape != want.shape:
+        raise Violation('vectors-shape', f'{v.shape} vs {want.shape}')
+    if np.abs(v - want).max() <= tol:
+        return want
+    nb = want.shape[1]
+    re = want.copy()
+    for c0 in range(0, nb, 4):
+        blk_w = want[:, c0:c0 + 4].transpose(1, 0, 2).reshape(4, -1)
+        blk_v = v[:, c0:c0 + 4].transpose(1, 0, 2).reshape(4, -1)
+        perm = oracle.match_rows(blk_v, blk_w, tol)
+        if perm is None:
+            d = np.abs(blk_v[:, None, :] - blk_w[None, :, :]).max(axis=-1).min(axis=1)
+            b = c0 + int(np.argmax(d))
+            raise Violation('vectors-are-minimum-image-bonds', f'bond {b} (centre {c0 // 4}): its time series {v[:2, b].tolist()}... matches none of the minimum-image centre->satellite vectors of that centre, e.g. {want[0, c0:c0 + 4].tolist()} (cell {case["lattice"]["family"]}/{case["lattice"]["orient"]})')
+        re[:, c0:c0 + 4] = want[:, c0 + perm]
+    return re
+
+
 def alias_model(v):
     """the length-(2F-2) inverse-FFT variant of the autocorrelation (known finding)"""
     T, N, _ = v.shape
@@ -119,11 +141,7 @@ def run(case):
     T = case['frames']
     o = gcall(Orientations, traj, 'P', 'S')
     v = np.asarray(o.vectors, float)
-    if v.shape != want.shape:
-        raise Violation('vectors-shape', f'{v.shape} vs {want.shape}')
-    if np.abs(v - want).max() > 1e-9 * max(1.0, np.abs(want).max()):
-        t, b, k = np.unravel_index(np.argmax(np.abs(v - want)), v.shape)
-        raise Violation('vectors-are-minimum-image-bonds', f'frame {t} bond {b}: {v[t, b].tolist()} vs minimum-image centre->satellite vector {want[t, b].tolist()} (cell {case["lattice"]["family"]}/{case["lattice"]["orient"]})')
+    want = align_bonds(v, want, case)
     # normalise
     n = np.asarray(gcall(o.normalize).vectors, float)
     ln = np.linalg.norm(want, axis=-1, keepdims=True)
@@ -150,15 +168,11 @@ def run(case):
             raise Violation('symmetrize-one-image-per-operation', f'{how}: shape {sv.shape} vs {(T, nb * no, 3)}')
         blocks = sv.reshape(T, nb, no, 3)
         wimg = np.einsum('kij,tbj->tbki', ops, want)
-        a = np.sort(np.round(blocks, 7), axis=2)
-        # compare as multisets per vector: sort rows lexicographically
+        # compare as multisets per vector (the order of the images is not specified)
         for t in range(T):
             for b in range(nb):
-                g = blocks[t, b][np.lexsort(np.round(blocks[t, b], 6).T)]
-                w = wimg[t, b][np.lexsort(np.round(wimg[t, b], 6).T)]
-                if np.abs(g - w).max() > 1e-6:
-                    raise Violation('symmetrize-images-under-the-group', f'{how}, group {name}: frame {t} vector {b}: images {np.round(g, 4).tolist()} vs {np.round(w, 4).tolist()}')
-        del a
+                if oracle.match_rows(wimg[t, b], blocks[t, b], 1e-6) is None:
+                    raise Violation('symmetrize-images-under-the-group', f'{how}, group {name}: frame {t} vector {b}: images {np.round(blocks[t, b], 4).tolist()} vs {np.round(wimg[t, b], 4).tolist()}')
     # spherical representation is invertible
     sph = np.asarray(gcall(lambda: o.vectors_spherical), float)
     az, el, r = np.radians(sph[..., 0]), np.radians(sph[..., 1]), sph[..., 2]
@@ -181,6 +195,7 @@ def run_autocorr(case):
     traj, want, crossing = build(case)
     T = case['frames']
     o = gcall(Orientations, traj, 'P', 'S')
+    want = align_bonds(np.asarray(o.vectors, float), want, case)
     if case.get('normalized'):
         o = gcall(o.normalize)
         want = want / np.linalg.norm(want, axis=-1, keepdims=True)
@@ -207,10 +222,10 @@ def sig_autocorr(sub, case, v):
     T = case['frames']
     if T == 1:
         return 'raised ValueError' in v.detail  # irfft of a single point is undefined: same root cause
+    o = Orientations(traj, 'P', 'S')
+    want = align_bonds(np.asarray(o.vectors, float), want, case)
     if case.get('normalized'):
         want = want / np.linalg.norm(want, axis=-1, keepdims=True)
-    o = Orientations(traj, 'P', 'S')
-    if case.get('normalized'):
         o = o.normalize()
     got = np.asarray(o.autocorrelation(), float)
     model = alias_model(want)
